@@ -179,6 +179,8 @@ def parse_run(zs):
             res.append(("ok", v, evs))
         elif st == 0:
             res.append(("revert",))
+        elif st == 3:
+            res.append(("revert", c.next()))
         else:
             res.append(("error", {0: "revert", 1: "out-of-fuel", 2: "stuck"}[c.next()]))
     fin = p_values(c)
@@ -348,6 +350,13 @@ def compare_all(prog, calls, model, obs, unordered=(), first_only=False):
         if m[0] == "revert":
             if ok:
                 out.append({"call": i, "what": "status", "expected": "revert", "observed": "success", "out": rdata.hex()})
+                continue
+            # revert data: Error(string) for assert/raise with a reason, empty otherwise
+            exp = b""
+            if len(m) > 1:
+                exp = bytes.fromhex("08c379a0") + eth_abi.encode(["string"], [prog.reasons[m[1]]])
+            if exp != rdata:
+                out.append({"call": i, "what": "revert-data", "expected": exp.hex(), "observed": rdata.hex()})
             continue
         if not ok:
             out.append({"call": i, "what": "status", "expected": "success", "observed": "revert", "out": rdata.hex()})
